@@ -96,11 +96,18 @@ def run(ctx):
             msg._message.mtime = [0, 1, 2 ** 31 - 1, 1262304000, 2 ** 32 - 1][n % 5]
             msg._message.update_hlen()
             sigs_made = []
+            # the export is a function of the message's current state, not of earlier exports: on every other scenario the message
+            # is written out (binary and armored) before each signature is attached (draft -> signed -> counter-signed)
+            early = n % 2 == 1
+            if early:
+                bytes(msg), str(msg)
             if sc['when'] == 'sign-then-encrypt':
                 for j, kid in enumerate(sc['signers']):
                     s = keyset[kid].sign(msg, created=K.ts(K.T0 + 7000 + (0 if sc['sametick'] else j)))
                     msg |= s
                     sigs_made.append(s)
+                    if early:
+                        bytes(msg), str(msg)
             blob = bytes(msg)
         except Exception as ex:
             ev.append({'k': 'import', 'label': label, 'raised': True, 'before': {}, 'after': {}, 'clause': 'C20.import', 'exc': 'construct: ' + repr(ex)[:100]})
